@@ -32,7 +32,7 @@ def _alarm_handler(signum, frame):
 
 def _check_in_child(suite, plan):
     signal.signal(signal.SIGALRM, _alarm_handler)
-    signal.setitimer(signal.ITIMER_REAL, RUN_WALL_S, 5.0)
+    signal.setitimer(signal.ITIMER_REAL, float(plan.get("wall_s", RUN_WALL_S)), 5.0)
     try:
         return suite.check(plan)
     finally:
@@ -68,7 +68,7 @@ def run_one(suite, plan):
             os._exit(code)
     os.close(w)
     chunks = []
-    deadline = time.time() + 2 * RUN_WALL_S + 30
+    deadline = time.time() + 2 * float(plan.get("wall_s", RUN_WALL_S)) + 30
     timed_out = False
     with os.fdopen(r, "rb") as f:
         while True:
